@@ -101,8 +101,25 @@ def slice_digest(texts, name):
     return hashlib.sha256(t[i:j].encode()).hexdigest()[:15]
 
 
+FILE = "<file>"
+
+
+def file_digest(path):
+    """digest of a whole data file; JSON is parsed and re-serialised canonically (layout does not count)"""
+    raw = open(path, "rb").read()
+    if path.endswith(".json"):
+        import json
+        try:
+            raw = json.dumps(json.loads(raw.decode("utf-8")), sort_keys=True, separators=(",", ":")).encode()
+        except ValueError:
+            pass
+    return hashlib.sha256(raw).hexdigest()[:15]
+
+
 def digests(path, names):
-    """{name: digest or None} for plain item names and slice names"""
+    """{name: digest or None} for plain item names, slice names and `<file>` (a whole data file)"""
+    if list(names) == [FILE]:
+        return {FILE: file_digest(path)}
     texts = item_texts(path)
     res = {}
     for n in names:
